@@ -6,7 +6,7 @@
 gamma builds the real objects and the abstract ones in lockstep; the post-state comparison is structural equality of all
 entries plus *identity* of stack frames / pending references."""
 import hc, prog, delta
-from typing import List
+from typing import List, Tuple
 from antlr4 import ParseTreeWalker
 from cminx.aggregator import DocumentationAggregator, DefinitionCommand
 from cminx.config import Settings
@@ -22,7 +22,9 @@ SYMKW = @@SYMKW@@          # kwargs flag of every open definition frame symbolic
 ALEN = @@ALEN@@            # exact length of each symbolic argument text
 SYMFLAGS = @@SYMFLAGS@@    # ten include_undocumented_* flags symbolic (C08) or default
 FREE = @@FREE@@            # free regex shim + symbolic strip patterns and trigger (C03)
-NAMELEN = @@NAMELEN@@      # max length of the symbolic command name ("@other" only)
+NAMELEN = @@NAMELEN@@      # exact length of the symbolic command name ("@other" only)
+TL = @@TL@@                # trigger length, doc text length = DL (FREE only)
+DL = @@DL@@
 SPECIAL = @@SPECIAL@@      # names with a processor or block semantics (computed from the real class by the driver)
 BAD = " " + chr(9) + chr(10) + chr(13) + "()#" + chr(34) + chr(92)
 _shim = hc.shim_re("free" if FREE else "real")
@@ -31,8 +33,25 @@ DOCBLOCK_HEAD = "#[[[" + chr(10) + "# "
 DOCBLOCK_TAIL = chr(10) + "#]]"
 
 
-def _argok(x: str) -> bool:
-    return len(x) == ALEN and all(c not in BAD for c in x)
+NCP = @@NCP@@              # NA * ALEN code points for the argument texts
+
+
+def _argsok(cps) -> bool:
+    return hc.cps_ok(cps, bad=hc.PLAINBAD) if NA > 0 else True
+
+
+def _identifier(n) -> bool:
+    """a command name is an Identifier token: [A-Za-z_][A-Za-z0-9_]*"""
+    for i in range(len(n)):
+        c = n[i]
+        if not ((65 <= c <= 90) or (97 <= c <= 122) or c == 95 or (i > 0 and 48 <= c <= 57)):
+            return False
+    return True
+
+
+def _args(cps):
+    pc = hc.Pieces(cps)
+    return [pc.take(ALEN) for _ in range(NA)]
 
 
 def gamma(defs, kw, classes, pending, settings):
@@ -100,11 +119,11 @@ def partner(abs_e, st, agg, pairs):
     return None
 
 
-def check(defs: List[bool], kw: List[bool], classes: List[bool], pending: int, documented: bool, case: int, a: List[str],
-          ef: bool, name: str, flags: List[bool], pats: List[str], trig: str, d: str, line: int, col: int) -> bool:
+def check(defs: List[bool], kw: List[bool], classes: List[bool], pending: int, documented: bool, case: int, cps: $$CPS$$,
+          ef: bool, ncps: $$NT$$, flags: List[bool], fcps: $$FT$$, line: int, col: int) -> bool:
     """
     pre: len(defs) <= MAXD and len(kw) == (len(defs) if SYMKW else 0) and len(classes) <= MAXC and 0 <= pending <= 2 and case in CASES
-    pre: len(a) == NA and all(_argok(x) for x in a)
+    pre: _argsok(cps)
     pre: not (pending == 1 and (len(classes) == 0 or not classes[-1]))
     pre: not (pending != 0 and (KIND not in ("function", "macro") or documented))
     pre: not (KIND in ("endfunction", "endmacro") and len(defs) == 0)
@@ -112,11 +131,20 @@ def check(defs: List[bool], kw: List[bool], classes: List[bool], pending: int, d
     pre: not (KIND in ("cpp_attr", "cpp_member", "cpp_constructor") and len(classes) == 0)
     pre: not (documented and KIND in ("endfunction", "endmacro", "cpp_end_class", "cmake_parse_arguments"))
     pre: (len(flags) == 10) if SYMFLAGS else (len(flags) == 0)
-    pre: (len(pats) == 3 and all(len(p) <= 1 for p in pats) and len(trig) == 1 and len(d) == 1 and chr(10) not in d and chr(13) not in d) if FREE else (len(pats) == 0 and len(trig) == 0 and len(d) == 0)
-    pre: (KIND == "@other" and 1 <= len(name) <= NAMELEN and all(name.lower() != s for s in SPECIAL)) or (KIND != "@other" and len(name) == 0)
+    pre: hc.cps_ok(fcps, bad=(10, 13)) if FREE else fcps == (0,)
+    pre: (_identifier(ncps) and all(hc.S(ncps).lower() != s for s in SPECIAL)) if KIND == "@other" else ncps == (0,)
     pre: not ef or KIND in ("ct_add_test", "ct_add_section")
     post: _
     """
+    a = _args(cps)
+    name = hc.S(ncps) if KIND == "@other" else ""
+    pats, trig, d = [], "", ""
+    if FREE:
+        pats = [chr(fcps[0]), chr(fcps[1]), chr(fcps[2])]
+        trig = hc.S(fcps[3:3 + TL])
+        d = hc.S(fcps[3 + TL:])
+        if "]]" in d:
+            return True
     settings = Settings()
     fl = dict(delta.DEFAULT_FLAGS)
     if SYMFLAGS:
@@ -150,8 +178,8 @@ def check(defs: List[bool], kw: List[bool], classes: List[bool], pending: int, d
     try:
         ParseTreeWalker().walk(agg, tree)
     except Exception:
-        return hc.report(False, defs=defs, kw=kw, classes=classes, pending=pending, documented=documented, case=case, a=a, ef=ef,
-                         name=name, flags=flags, pats=pats, trig=trig, d=d, line=line, col=col)
+        return hc.report(False, defs=defs, kw=kw, classes=classes, pending=pending, documented=documented, case=case, cps=cps, ef=ef,
+                         ncps=ncps, flags=flags, fcps=fcps, line=line, col=col)
     # ---- specification step
     delta.step(st, documented, cleaned, cname, args, fl, trigger, strip)
     # ---- compare post-states
@@ -190,5 +218,5 @@ def check(defs: List[bool], kw: List[bool], classes: List[bool], pending: int, d
         ok = len(_shim.log) == len(args) - 1
         for j in range(len(args) - 1):
             ok = ok and _shim.log[j][0] == which and _shim.log[j][1] == args[j + 1]
-    return hc.report(ok, defs=defs, kw=kw, classes=classes, pending=pending, documented=documented, case=case, a=a, ef=ef,
-                     name=name, flags=flags, pats=pats, trig=trig, d=d, line=line, col=col)
+    return hc.report(ok, defs=defs, kw=kw, classes=classes, pending=pending, documented=documented, case=case, cps=cps, ef=ef,
+                     ncps=ncps, flags=flags, fcps=fcps, line=line, col=col)
